@@ -217,8 +217,10 @@ type Client struct {
 	// CloseWhenDone: FIN once everything was sent and all responses arrived
 	// (or the server closed).
 	CloseWhenDone bool
-	finSent       bool
-	sentBytes     int
+	// NoInterim: a 100 status is an ordinary final response (no Expect: 100-continue in play)
+	NoInterim bool
+	finSent   bool
+	sentBytes int
 }
 
 func NewClient(ep *core.Episode, c *SrvConn) *Client {
@@ -247,7 +249,7 @@ func (cl *Client) Parse() {
 			return
 		}
 		cl.off += n
-		if m.Status == 100 {
+		if m.Status == 100 && !cl.NoInterim {
 			cl.Continues++
 			continue
 		}
